@@ -510,6 +510,110 @@ _benign_corpus()
 # The full self-test reports them as FALSE-ALARM; the thorough tier lists them as notes instead of failing, because
 # they say something about the checker's reach, not about the tree.  Anything not listed here must be silent.
 KNOWN_BRITTLE = {
+    ("ben-B21-1", "C03"): "fourth benign corpus (DESIGN 11.5): API modernisation (first()/split_first/let-else/first_chunk/checked_sub/iter-enumerate for index loops)",
+    ("ben-B21-1", "C09"): "fourth benign corpus (DESIGN 11.5): API modernisation (first()/split_first/let-else/first_chunk/checked_sub/iter-enumerate for index loops)",
+    ("ben-B21-2", "C05"): "fourth benign corpus (DESIGN 11.5): representation change of locals / private fields (tuple -> struct, Option pair for an enum, integer type of a counter)",
+    ("ben-B21-2", "C06"): "fourth benign corpus (DESIGN 11.5): representation change of locals / private fields (tuple -> struct, Option pair for an enum, integer type of a counter)",
+    ("ben-B21-2", "C10"): "fourth benign corpus (DESIGN 11.5): representation change of locals / private fields (tuple -> struct, Option pair for an enum, integer type of a counter)",
+    ("ben-B21-3", "C03"): "fourth benign corpus (DESIGN 11.5): code moved across an existing function boundary (reviewed helper merged into its caller, arm moved into a new function with its own result)",
+    ("ben-B21-3", "C09"): "fourth benign corpus (DESIGN 11.5): code moved across an existing function boundary (reviewed helper merged into its caller, arm moved into a new function with its own result)",
+    ("ben-B21-4", "C09"): "fourth benign corpus (DESIGN 11.5): error-exit style through an `ensure(cond, err)?` helper in a rule that reads the `if` itself",
+    ("ben-B21-5", "C01"): "fourth benign corpus (DESIGN 11.5): loop style (loop <-> while <-> iterator fold / for_each)",
+    ("ben-B21-5", "C03"): "fourth benign corpus (DESIGN 11.5): loop style (loop <-> while <-> iterator fold / for_each)",
+    ("ben-B21-5", "C04"): "fourth benign corpus (DESIGN 11.5): loop style (loop <-> while <-> iterator fold / for_each)",
+    ("ben-B21-5", "C06"): "fourth benign corpus (DESIGN 11.5): loop style (loop <-> while <-> iterator fold / for_each)",
+    ("ben-B21-5", "C08"): "fourth benign corpus (DESIGN 11.5): loop style (loop <-> while <-> iterator fold / for_each)",
+    ("ben-B21-5", "C18"): "fourth benign corpus (DESIGN 11.5): loop style (loop <-> while <-> iterator fold / for_each)",
+    ("ben-B22-1", "C06"): "fourth benign corpus (DESIGN 11.5): API modernisation (first()/split_first/let-else/first_chunk/checked_sub/iter-enumerate for index loops)",
+    ("ben-B22-1", "C08"): "fourth benign corpus (DESIGN 11.5): API modernisation (first()/split_first/let-else/first_chunk/checked_sub/iter-enumerate for index loops)",
+    ("ben-B22-1", "C10"): "fourth benign corpus (DESIGN 11.5): API modernisation (first()/split_first/let-else/first_chunk/checked_sub/iter-enumerate for index loops)",
+    ("ben-B22-2", "C03"): "fourth benign corpus (DESIGN 11.5): representation change of locals / private fields (tuple -> struct, Option pair for an enum, integer type of a counter)",
+    ("ben-B22-2", "C05"): "fourth benign corpus (DESIGN 11.5): representation change of locals / private fields (tuple -> struct, Option pair for an enum, integer type of a counter)",
+    ("ben-B22-3", "C05"): "fourth benign corpus (DESIGN 11.5): code moved across an existing function boundary (reviewed helper merged into its caller, arm moved into a new function with its own result)",
+    ("ben-B22-3", "C10"): "fourth benign corpus (DESIGN 11.5): code moved across an existing function boundary (reviewed helper merged into its caller, arm moved into a new function with its own result)",
+    ("ben-B22-4", "C06"): "fourth benign corpus (DESIGN 11.5): error-exit style through an `ensure(cond, err)?` helper in a rule that reads the `if` itself",
+    ("ben-B22-4", "C08"): "fourth benign corpus (DESIGN 11.5): error-exit style through an `ensure(cond, err)?` helper in a rule that reads the `if` itself",
+    ("ben-B22-4", "C10"): "fourth benign corpus (DESIGN 11.5): error-exit style through an `ensure(cond, err)?` helper in a rule that reads the `if` itself",
+    ("ben-B22-5", "C03"): "fourth benign corpus (DESIGN 11.5): loop style (loop <-> while <-> iterator fold / for_each)",
+    ("ben-B22-5", "C05"): "fourth benign corpus (DESIGN 11.5): loop style (loop <-> while <-> iterator fold / for_each)",
+    ("ben-B22-5", "C10"): "fourth benign corpus (DESIGN 11.5): loop style (loop <-> while <-> iterator fold / for_each)",
+    ("ben-B23-1", "C01"): "fourth benign corpus (DESIGN 11.5): API modernisation (first()/split_first/let-else/first_chunk/checked_sub/iter-enumerate for index loops)",
+    ("ben-B23-1", "C03"): "fourth benign corpus (DESIGN 11.5): API modernisation (first()/split_first/let-else/first_chunk/checked_sub/iter-enumerate for index loops)",
+    ("ben-B23-2", "C03"): "fourth benign corpus (DESIGN 11.5): representation change of locals / private fields (tuple -> struct, Option pair for an enum, integer type of a counter)",
+    ("ben-B23-5", "C01"): "fourth benign corpus (DESIGN 11.5): loop style (loop <-> while <-> iterator fold / for_each)",
+    ("ben-B23-5", "C03"): "fourth benign corpus (DESIGN 11.5): loop style (loop <-> while <-> iterator fold / for_each)",
+    ("ben-B23-5", "C09"): "fourth benign corpus (DESIGN 11.5): loop style (loop <-> while <-> iterator fold / for_each)",
+    ("ben-B23-5", "C14"): "fourth benign corpus (DESIGN 11.5): loop style (loop <-> while <-> iterator fold / for_each)",
+    ("ben-B24-1", "C01"): "fourth benign corpus (DESIGN 11.5): API modernisation (first()/split_first/let-else/first_chunk/checked_sub/iter-enumerate for index loops)",
+    ("ben-B24-1", "C02"): "fourth benign corpus (DESIGN 11.5): API modernisation (first()/split_first/let-else/first_chunk/checked_sub/iter-enumerate for index loops)",
+    ("ben-B24-1", "C03"): "fourth benign corpus (DESIGN 11.5): API modernisation (first()/split_first/let-else/first_chunk/checked_sub/iter-enumerate for index loops)",
+    ("ben-B24-1", "C12"): "fourth benign corpus (DESIGN 11.5): API modernisation (first()/split_first/let-else/first_chunk/checked_sub/iter-enumerate for index loops)",
+    ("ben-B24-1", "C13"): "fourth benign corpus (DESIGN 11.5): API modernisation (first()/split_first/let-else/first_chunk/checked_sub/iter-enumerate for index loops)",
+    ("ben-B24-1", "C14"): "fourth benign corpus (DESIGN 11.5): API modernisation (first()/split_first/let-else/first_chunk/checked_sub/iter-enumerate for index loops)",
+    ("ben-B24-1", "C15"): "fourth benign corpus (DESIGN 11.5): API modernisation (first()/split_first/let-else/first_chunk/checked_sub/iter-enumerate for index loops)",
+    ("ben-B24-1", "C16"): "fourth benign corpus (DESIGN 11.5): API modernisation (first()/split_first/let-else/first_chunk/checked_sub/iter-enumerate for index loops)",
+    ("ben-B24-1", "C19"): "fourth benign corpus (DESIGN 11.5): API modernisation (first()/split_first/let-else/first_chunk/checked_sub/iter-enumerate for index loops)",
+    ("ben-B24-3", "C01"): "fourth benign corpus (DESIGN 11.5): code moved across an existing function boundary (reviewed helper merged into its caller, arm moved into a new function with its own result)",
+    ("ben-B24-3", "C02"): "fourth benign corpus (DESIGN 11.5): code moved across an existing function boundary (reviewed helper merged into its caller, arm moved into a new function with its own result)",
+    ("ben-B24-3", "C12"): "fourth benign corpus (DESIGN 11.5): code moved across an existing function boundary (reviewed helper merged into its caller, arm moved into a new function with its own result)",
+    ("ben-B24-3", "C13"): "fourth benign corpus (DESIGN 11.5): code moved across an existing function boundary (reviewed helper merged into its caller, arm moved into a new function with its own result)",
+    ("ben-B24-3", "C14"): "fourth benign corpus (DESIGN 11.5): code moved across an existing function boundary (reviewed helper merged into its caller, arm moved into a new function with its own result)",
+    ("ben-B24-3", "C15"): "fourth benign corpus (DESIGN 11.5): code moved across an existing function boundary (reviewed helper merged into its caller, arm moved into a new function with its own result)",
+    ("ben-B24-3", "C16"): "fourth benign corpus (DESIGN 11.5): code moved across an existing function boundary (reviewed helper merged into its caller, arm moved into a new function with its own result)",
+    ("ben-B24-3", "C19"): "fourth benign corpus (DESIGN 11.5): code moved across an existing function boundary (reviewed helper merged into its caller, arm moved into a new function with its own result)",
+    ("ben-B24-5", "C03"): "fourth benign corpus (DESIGN 11.5): loop style (loop <-> while <-> iterator fold / for_each)",
+    ("ben-B25-4", "C01"): "fourth benign corpus (DESIGN 11.5): error-exit style through an `ensure(cond, err)?` helper in a rule that reads the `if` itself",
+    ("ben-B25-4", "C02"): "fourth benign corpus (DESIGN 11.5): error-exit style through an `ensure(cond, err)?` helper in a rule that reads the `if` itself",
+    ("ben-B25-4", "C12"): "fourth benign corpus (DESIGN 11.5): error-exit style through an `ensure(cond, err)?` helper in a rule that reads the `if` itself",
+    ("ben-B25-4", "C16"): "fourth benign corpus (DESIGN 11.5): error-exit style through an `ensure(cond, err)?` helper in a rule that reads the `if` itself",
+    ("ben-B25-4", "C19"): "fourth benign corpus (DESIGN 11.5): error-exit style through an `ensure(cond, err)?` helper in a rule that reads the `if` itself",
+    ("ben-B26-2", "C01"): "fourth benign corpus (DESIGN 11.5): representation change of locals / private fields (tuple -> struct, Option pair for an enum, integer type of a counter)",
+    ("ben-B26-2", "C02"): "fourth benign corpus (DESIGN 11.5): representation change of locals / private fields (tuple -> struct, Option pair for an enum, integer type of a counter)",
+    ("ben-B26-2", "C12"): "fourth benign corpus (DESIGN 11.5): representation change of locals / private fields (tuple -> struct, Option pair for an enum, integer type of a counter)",
+    ("ben-B26-2", "C13"): "fourth benign corpus (DESIGN 11.5): representation change of locals / private fields (tuple -> struct, Option pair for an enum, integer type of a counter)",
+    ("ben-B26-2", "C14"): "fourth benign corpus (DESIGN 11.5): representation change of locals / private fields (tuple -> struct, Option pair for an enum, integer type of a counter)",
+    ("ben-B26-2", "C15"): "fourth benign corpus (DESIGN 11.5): representation change of locals / private fields (tuple -> struct, Option pair for an enum, integer type of a counter)",
+    ("ben-B26-2", "C16"): "fourth benign corpus (DESIGN 11.5): representation change of locals / private fields (tuple -> struct, Option pair for an enum, integer type of a counter)",
+    ("ben-B26-2", "C19"): "fourth benign corpus (DESIGN 11.5): representation change of locals / private fields (tuple -> struct, Option pair for an enum, integer type of a counter)",
+    ("ben-B26-5", "C01"): "fourth benign corpus (DESIGN 11.5): loop style (loop <-> while <-> iterator fold / for_each)",
+    ("ben-B26-5", "C02"): "fourth benign corpus (DESIGN 11.5): loop style (loop <-> while <-> iterator fold / for_each)",
+    ("ben-B26-5", "C12"): "fourth benign corpus (DESIGN 11.5): loop style (loop <-> while <-> iterator fold / for_each)",
+    ("ben-B26-5", "C13"): "fourth benign corpus (DESIGN 11.5): loop style (loop <-> while <-> iterator fold / for_each)",
+    ("ben-B26-5", "C14"): "fourth benign corpus (DESIGN 11.5): loop style (loop <-> while <-> iterator fold / for_each)",
+    ("ben-B26-5", "C15"): "fourth benign corpus (DESIGN 11.5): loop style (loop <-> while <-> iterator fold / for_each)",
+    ("ben-B26-5", "C16"): "fourth benign corpus (DESIGN 11.5): loop style (loop <-> while <-> iterator fold / for_each)",
+    ("ben-B26-5", "C19"): "fourth benign corpus (DESIGN 11.5): loop style (loop <-> while <-> iterator fold / for_each)",
+    ("ben-B28-1", "C01"): "fourth benign corpus (DESIGN 11.5): API modernisation (first()/split_first/let-else/first_chunk/checked_sub/iter-enumerate for index loops)",
+    ("ben-B28-1", "C02"): "fourth benign corpus (DESIGN 11.5): API modernisation (first()/split_first/let-else/first_chunk/checked_sub/iter-enumerate for index loops)",
+    ("ben-B28-1", "C03"): "fourth benign corpus (DESIGN 11.5): API modernisation (first()/split_first/let-else/first_chunk/checked_sub/iter-enumerate for index loops)",
+    ("ben-B28-1", "C12"): "fourth benign corpus (DESIGN 11.5): API modernisation (first()/split_first/let-else/first_chunk/checked_sub/iter-enumerate for index loops)",
+    ("ben-B28-1", "C13"): "fourth benign corpus (DESIGN 11.5): API modernisation (first()/split_first/let-else/first_chunk/checked_sub/iter-enumerate for index loops)",
+    ("ben-B28-1", "C14"): "fourth benign corpus (DESIGN 11.5): API modernisation (first()/split_first/let-else/first_chunk/checked_sub/iter-enumerate for index loops)",
+    ("ben-B28-1", "C15"): "fourth benign corpus (DESIGN 11.5): API modernisation (first()/split_first/let-else/first_chunk/checked_sub/iter-enumerate for index loops)",
+    ("ben-B28-1", "C16"): "fourth benign corpus (DESIGN 11.5): API modernisation (first()/split_first/let-else/first_chunk/checked_sub/iter-enumerate for index loops)",
+    ("ben-B28-1", "C19"): "fourth benign corpus (DESIGN 11.5): API modernisation (first()/split_first/let-else/first_chunk/checked_sub/iter-enumerate for index loops)",
+    ("ben-B28-2", "C01"): "fourth benign corpus (DESIGN 11.5): representation change of locals / private fields (tuple -> struct, Option pair for an enum, integer type of a counter)",
+    ("ben-B28-2", "C03"): "fourth benign corpus (DESIGN 11.5): representation change of locals / private fields (tuple -> struct, Option pair for an enum, integer type of a counter)",
+    ("ben-B28-3", "C01"): "fourth benign corpus (DESIGN 11.5): code moved across an existing function boundary (reviewed helper merged into its caller, arm moved into a new function with its own result)",
+    ("ben-B28-3", "C02"): "fourth benign corpus (DESIGN 11.5): code moved across an existing function boundary (reviewed helper merged into its caller, arm moved into a new function with its own result)",
+    ("ben-B28-3", "C03"): "fourth benign corpus (DESIGN 11.5): code moved across an existing function boundary (reviewed helper merged into its caller, arm moved into a new function with its own result)",
+    ("ben-B28-3", "C12"): "fourth benign corpus (DESIGN 11.5): code moved across an existing function boundary (reviewed helper merged into its caller, arm moved into a new function with its own result)",
+    ("ben-B28-3", "C13"): "fourth benign corpus (DESIGN 11.5): code moved across an existing function boundary (reviewed helper merged into its caller, arm moved into a new function with its own result)",
+    ("ben-B28-3", "C14"): "fourth benign corpus (DESIGN 11.5): code moved across an existing function boundary (reviewed helper merged into its caller, arm moved into a new function with its own result)",
+    ("ben-B28-3", "C15"): "fourth benign corpus (DESIGN 11.5): code moved across an existing function boundary (reviewed helper merged into its caller, arm moved into a new function with its own result)",
+    ("ben-B28-3", "C16"): "fourth benign corpus (DESIGN 11.5): code moved across an existing function boundary (reviewed helper merged into its caller, arm moved into a new function with its own result)",
+    ("ben-B28-3", "C19"): "fourth benign corpus (DESIGN 11.5): code moved across an existing function boundary (reviewed helper merged into its caller, arm moved into a new function with its own result)",
+    ("ben-B28-4", "C01"): "fourth benign corpus (DESIGN 11.5): error-exit style through an `ensure(cond, err)?` helper in a rule that reads the `if` itself",
+    ("ben-B28-4", "C14"): "fourth benign corpus (DESIGN 11.5): error-exit style through an `ensure(cond, err)?` helper in a rule that reads the `if` itself",
+    ("ben-B28-5", "C01"): "fourth benign corpus (DESIGN 11.5): loop style (loop <-> while <-> iterator fold / for_each)",
+    ("ben-B28-5", "C02"): "fourth benign corpus (DESIGN 11.5): loop style (loop <-> while <-> iterator fold / for_each)",
+    ("ben-B28-5", "C03"): "fourth benign corpus (DESIGN 11.5): loop style (loop <-> while <-> iterator fold / for_each)",
+    ("ben-B28-5", "C12"): "fourth benign corpus (DESIGN 11.5): loop style (loop <-> while <-> iterator fold / for_each)",
+    ("ben-B28-5", "C13"): "fourth benign corpus (DESIGN 11.5): loop style (loop <-> while <-> iterator fold / for_each)",
+    ("ben-B28-5", "C14"): "fourth benign corpus (DESIGN 11.5): loop style (loop <-> while <-> iterator fold / for_each)",
+    ("ben-B28-5", "C15"): "fourth benign corpus (DESIGN 11.5): loop style (loop <-> while <-> iterator fold / for_each)",
+    ("ben-B28-5", "C16"): "fourth benign corpus (DESIGN 11.5): loop style (loop <-> while <-> iterator fold / for_each)",
+    ("ben-B28-5", "C19"): "fourth benign corpus (DESIGN 11.5): loop style (loop <-> while <-> iterator fold / for_each)",
 }
 
 # ---- C09: window counter accounting --------------------------------------------------------
